@@ -252,43 +252,73 @@ impl<S: BuildHasher + Default + Clone + Send + Sync + 'static> ConcurrentSet
         Self: 'x;
 
     fn insert_element(&self, element: Self::Element) -> bool {
-        let read = self.0.read();
-        match &*read {
+        {
+            let read = self.0.read();
+            match &*read {
+                TieredStorage::Small(vec_lock) => {
+                    let mut vec = vec_lock.write();
+
+                    if vec.len() < 32 {
+                        if vec.contains(&element) {
+                            return false;
+                        }
+
+                        vec.push(element);
+
+                        return true;
+                    }
+
+                    // The small storage is full: it has to be upgraded, which
+                    // must happen under the exclusive lock (below). Draining
+                    // the vector here and installing the large set after the
+                    // locks were released would let a concurrent insert land
+                    // in the drained vector (and be lost), and would let a
+                    // concurrent iteration observe an empty set.
+                }
+
+                TieredStorage::Large(set) => return set.insert(element),
+            }
+        }
+
+        #[cfg(qbice_verif)]
+        crate::verif::point("bes_upgrade_window");
+
+        let mut write = self.0.write();
+
+        // re-check: another thread may have upgraded (or changed) the storage
+        // between the two locks
+        let large_set = match &mut *write {
             TieredStorage::Small(vec_lock) => {
-                let mut vec = vec_lock.write();
+                let vec = vec_lock.get_mut();
 
-                // Upgrade to large storage if exceed threshold
-                if vec.len() == 32 {
-                    let large_set = DashSet::with_hasher(S::default());
+                if vec.contains(&element) {
+                    return false;
+                }
 
-                    for item in vec.drain(..) {
-                        large_set.insert(item);
-                    }
-
-                    let result = large_set.insert(element);
-
-                    drop(vec);
-                    drop(read);
-
-                    #[cfg(qbice_verif)]
-                    crate::verif::point("bes_upgrade_window");
-
-                    *self.0.write() = TieredStorage::Large(large_set);
-
-                    result
-                } else {
-                    if vec.contains(&element) {
-                        return false;
-                    }
-
+                if vec.len() < 32 {
                     vec.push(element);
 
-                    true
+                    return true;
                 }
+
+                // Upgrade to large storage if exceed threshold
+                let large_set = DashSet::with_hasher(S::default());
+
+                for item in vec.drain(..) {
+                    large_set.insert(item);
+                }
+
+                large_set.insert(element);
+
+                large_set
             }
 
-            TieredStorage::Large(set) => set.insert(element),
-        }
+            TieredStorage::Large(set) => return set.insert(element),
+        };
+
+        *write = TieredStorage::Large(large_set);
+
+        true
     }
 
     fn remove_element(&self, element: &Self::Element) -> bool {
